@@ -42,7 +42,7 @@ pub fn generate(prop: &str, _run: u64, t: &mut Tape) -> Scenario {
         "C01" => match _run % 8 {
             4 if _run % 16 == 4 => gen2::gen_state_skew(t),
             4 => gen2::gen_loopfam(t, gen2::LoopOpts { side: true, nested: true }),
-            5 => gen3::gen_join(t),
+            5 => gen3::gen_join_opts(t, _run % 16 == 5),
             6 => gen3::gen_fan(t),
             7 => gen3::gen_agg(t),
             3 if _run % 16 == 3 => {
@@ -59,6 +59,9 @@ pub fn generate(prop: &str, _run: u64, t: &mut Tape) -> Scenario {
             3 | 7 => gen2::gen_cwin(t),
             5 => gen3::gen_join_opts(t, true),
             6 => gen2::gen_loopfam(t, gen2::LoopOpts { side: _run % 16 == 6, nested: false }),
+            // streaming (channel) sources: bursts, idle periods, the producer closing the channel
+            // long after its last element
+            1 if _run % 16 == 1 => gen4::gen_latency(t),
             _ => gen::gen_pipe(t, Profile::pipe()),
         },
         "C06" => gen2::gen_timed(t, true),
